@@ -2,9 +2,10 @@
 use std::borrow::Cow;
 //@@ include prelude/cmp.rs
 //@@ include prelude/lossy.rs
+use std::collections::HashMap;
 //@@ include prelude/hash_keys.rs
 verus! {
-broadcast use {group_byte_keys};
+broadcast use {group_byte_keys, vstd::std_specs::hash::group_hash_axioms};
 //@@ item src/error.rs FerrousError
 //@@ item src/error.rs CommandError
 //@@ item src/error.rs StorageError
@@ -63,6 +64,128 @@ fn scan_window(all_keys: &Vec<Vec<u8>>, cursor: u64, pattern: Option<&[u8]>, max
     ensures
         r is Ok,
         scan_post(all_keys@, cursor as int, pattern, max_scan_count as int, (r->Ok_0).0, (r->Ok_0).1@),
+//@@ body
+//@@ end
+
+// SSCAN: the same cursor window over the sorted member list of one set (real loop, extracted)
+//@@ unit sscan_window stmts src/storage/engine.rs StorageEngine::sscan "let start_pos"
+//@@   opt same-return-type
+//@@   rewrite RC 0 "Cow<'_, str>" "cow_chars(cr) == lossy(p@)"
+//@@   rewrite RPCALL "pattern_matches" verif_pattern_matches
+//@@   loop 0
+//@@|     invariant
+//@@|         1 <= max_scan_count <= 1000, members@.len() <= usize::MAX,
+//@@|         start_pos <= current_pos <= members@.len() || (start_pos > members@.len() && current_pos == start_pos),
+//@@|         members_examined == current_pos - start_pos,
+//@@|         result@ == filtered(members@, start_pos as int, current_pos as int, pattern),
+//@@|         result@.len() <= members_examined, members_examined <= max_scan_count * 10, result@.len() <= max_scan_count,
+//@@|         pattern is Some <==> pattern_str is Some,
+//@@|         pattern matches Some(p) ==> cow_chars(pattern_str->Some_0) == lossy(p@),
+//@@|     ensures current_pos >= members@.len() || members_examined >= max_scan_count * 10 || result@.len() >= max_scan_count,
+//@@|     decreases members@.len() + 1 - current_pos,
+fn sscan_window(members: &Vec<Vec<u8>>, cursor: u64, pattern: Option<&[u8]>, max_scan_count: usize) -> (r: Result<(u64, Vec<Vec<u8>>)>)
+    requires 1 <= max_scan_count <= 1000,
+    ensures
+        r is Ok,
+        scan_post(members@, cursor as int, pattern, max_scan_count as int, (r->Ok_0).0, (r->Ok_0).1@),
+//@@ body
+//@@ end
+
+// ZSCAN: items are (member, score) pairs sorted by member; the filter applies to the member
+pub open spec fn zfiltered(all: Seq<(Vec<u8>, f64)>, from: int, to: int, pattern: Option<&[u8]>) -> Seq<(Vec<u8>, f64)>
+    decreases to - from
+{
+    if from >= to { Seq::empty() }
+    else {
+        let rest = zfiltered(all, from, to - 1, pattern);
+        if key_matches(pattern, all[to - 1].0) { rest.push(all[to - 1]) } else { rest }
+    }
+}
+pub open spec fn zscan_post(all: Seq<(Vec<u8>, f64)>, start: int, pattern: Option<&[u8]>, max: int, next: u64, out: Seq<(Vec<u8>, f64)>) -> bool {
+    if next != 0 {
+        &&& start < next < all.len()
+        &&& out == zfiltered(all, start, next as int, pattern)
+        &&& (out.len() == max || next - start == max * 10)
+    } else {
+        out == zfiltered(all, start, all.len() as int, pattern)
+    }
+}
+//@@ unit zscan_window stmts src/storage/engine.rs StorageEngine::zscan "let start_pos"
+//@@   opt same-return-type
+//@@   rewrite RC 0 "Cow<'_, str>" "cow_chars(cr) == lossy(p@)"
+//@@   rewrite RPCALL "pattern_matches" verif_pattern_matches
+//@@   loop 0
+//@@|     invariant
+//@@|         1 <= max_scan_count <= 1000, items@.len() <= usize::MAX,
+//@@|         start_pos <= current_pos <= items@.len() || (start_pos > items@.len() && current_pos == start_pos),
+//@@|         items_examined == current_pos - start_pos,
+//@@|         result@ == zfiltered(items@, start_pos as int, current_pos as int, pattern),
+//@@|         result@.len() <= items_examined, items_examined <= max_scan_count * 10, result@.len() <= max_scan_count,
+//@@|         pattern is Some <==> pattern_str is Some,
+//@@|         pattern matches Some(p) ==> cow_chars(pattern_str->Some_0) == lossy(p@),
+//@@|     ensures current_pos >= items@.len() || items_examined >= max_scan_count * 10 || result@.len() >= max_scan_count,
+//@@|     decreases items@.len() + 1 - current_pos,
+fn zscan_window(items: Vec<(Vec<u8>, f64)>, cursor: u64, pattern: Option<&[u8]>, max_scan_count: usize) -> (r: Result<(u64, Vec<(Vec<u8>, f64)>)>)
+    requires 1 <= max_scan_count <= 1000,
+    ensures
+        r is Ok,
+        zscan_post(items@, cursor as int, pattern, max_scan_count as int, (r->Ok_0).0, (r->Ok_0).1@),
+//@@ body
+//@@ end
+
+// HSCAN: fields sorted; the reply interleaves field and value unless NOVALUES
+pub open spec fn hfiltered(all: Seq<Vec<u8>>, from: int, to: int, pattern: Option<&[u8]>, h: Map<Vec<u8>, Vec<u8>>, no_values: bool) -> Seq<Vec<u8>>
+    decreases to - from
+{
+    if from >= to { Seq::empty() }
+    else {
+        let rest = hfiltered(all, from, to - 1, pattern, h, no_values);
+        if key_matches(pattern, all[to - 1]) { if no_values { rest.push(all[to - 1]) } else { rest.push(all[to - 1]).push(h[all[to - 1]]) } } else { rest }
+    }
+}
+pub open spec fn hcount(all: Seq<Vec<u8>>, from: int, to: int, pattern: Option<&[u8]>) -> int
+    decreases to - from
+{
+    if from >= to { 0 } else { hcount(all, from, to - 1, pattern) + if key_matches(pattern, all[to - 1]) { 1int } else { 0int } }
+}
+proof fn lemma_hfiltered_len(all: Seq<Vec<u8>>, from: int, to: int, pattern: Option<&[u8]>, h: Map<Vec<u8>, Vec<u8>>, no_values: bool)
+    ensures hfiltered(all, from, to, pattern, h, no_values).len() == hcount(all, from, to, pattern) * (if no_values { 1int } else { 2int }), hcount(all, from, to, pattern) >= 0,
+        from < to ==> hcount(all, from, to, pattern) <= to - from,
+    decreases to - from
+{
+    if from < to { lemma_hfiltered_len(all, from, to - 1, pattern, h, no_values); }
+}
+pub open spec fn hscan_post(all: Seq<Vec<u8>>, start: int, pattern: Option<&[u8]>, max: int, next: u64, out: Seq<Vec<u8>>, h: Map<Vec<u8>, Vec<u8>>, no_values: bool) -> bool {
+    if next != 0 {
+        &&& start < next < all.len()
+        &&& out == hfiltered(all, start, next as int, pattern, h, no_values)
+    } else {
+        out == hfiltered(all, start, all.len() as int, pattern, h, no_values)
+    }
+}
+//@@ unit hscan_window stmts src/storage/engine.rs StorageEngine::hscan "let start_pos"
+//@@   opt same-return-type
+//@@   rewrite RC 0 "Cow<'_, str>" "cow_chars(cr) == lossy(p@)"
+//@@   rewrite RPCALL "pattern_matches" verif_pattern_matches
+//@@   loop 0
+//@@|     invariant
+//@@|         1 <= max_scan_count <= 1000, fields@.len() <= usize::MAX,
+//@@|         forall|i: int| 0 <= i < fields@.len() ==> hash@.contains_key(#[trigger] fields@[i]),
+//@@|         start_pos <= current_pos <= fields@.len() || (start_pos > fields@.len() && current_pos == start_pos),
+//@@|         fields_examined == current_pos - start_pos, fields_examined <= max_scan_count * 10,
+//@@|         result@ == hfiltered(fields@, start_pos as int, current_pos as int, pattern, hash@, no_values),
+//@@|         result@.len() <= 2 * fields_examined,
+//@@|         pattern is Some <==> pattern_str is Some,
+//@@|         pattern matches Some(p) ==> cow_chars(pattern_str->Some_0) == lossy(p@),
+//@@|     ensures current_pos >= fields@.len() || current_pos > start_pos,
+//@@|     decreases fields@.len() + 1 - current_pos,
+//@@   at "let field = &fields[current_pos];"
+//@@| proof { lemma_hfiltered_len(fields@, start_pos as int, current_pos as int, pattern, hash@, no_values); }
+fn hscan_window(hash: HashMap<Vec<u8>, Vec<u8>>, fields: Vec<Vec<u8>>, cursor: u64, pattern: Option<&[u8]>, max_scan_count: usize, no_values: bool) -> (r: Result<(u64, Vec<Vec<u8>>)>)
+    requires 1 <= max_scan_count <= 1000, forall|i: int| 0 <= i < fields@.len() ==> hash@.contains_key(#[trigger] fields@[i]),
+    ensures
+        r is Ok,
+        hscan_post(fields@, cursor as int, pattern, max_scan_count as int, (r->Ok_0).0, (r->Ok_0).1@, hash@, no_values),
 //@@ body
 //@@ end
 
